@@ -474,7 +474,8 @@ RULE_SESSION = ("two transports of the library talk over a simulated connection 
 SESSION = dict(mode="session", n=(900, 12000), judge="mon")
 
 for _pid, _extra in [("C01", []), ("C03", [dict(mode="wire", n=(1500, 20000), judge="eq")]), ("C07", []), ("C08", []),
-                     ("C09", []), ("C10", []), ("C11", []), ("C12", []), ("C13", []), ("C20", [])]:
+                     ("C09", []), ("C10", []), ("C11", []), ("C12", []),
+                     ("C13", [dict(mode="wire", n=(50, 500), judge="eq", only="seqrun|case=\\d+ ")]), ("C20", [])]:
     prop(_pid, lean=[f"FmpRpc.Tie.{_pid}", f"FmpRpc.Props.{_pid}"], runs=[dict(SESSION)] + _extra,
          rule=RULE_SESSION + ((" || " + RULE_WIRE) if _extra else ""),
          assumptions=["Go channel / select / once / mutex semantics and the memory model at synchronisation granularity are modelled",
